@@ -63,6 +63,9 @@ pub fn command(spec: &Spec) -> Command {
     c.env("HOME", &spec.home);
     c.env("LD_PRELOAD", SHIM);
     c.env("NO_COLOR", "1");
+    // process/thread creation is the bottleneck in this sandbox (~190 clones/s machine-wide): forc compiles on
+    // its main thread, so one idle runtime worker instead of sixteen changes nothing it does
+    c.env("TOKIO_WORKER_THREADS", "1");
     let s = &spec.shim;
     c.env("SIMSHIM_EXE", &s.exe_names);
     if let Some(v) = s.seed {
@@ -249,4 +252,10 @@ pub fn read_tree(dir: &Path) -> BTreeMap<String, Vec<u8>> {
     let mut out = BTreeMap::new();
     walk(dir, dir, &mut out);
     out
+}
+
+/// Process creation does not scale in this sandbox (fork/exec throughput is ~200/s machine-wide and
+/// drops with more parallel spawners; measured optimum 2-4 workers), so engine A defaults to 3 workers.
+pub fn engine_a_workers() -> usize {
+    std::env::var("VERIF_WORKERS").ok().and_then(|s| s.parse().ok()).unwrap_or(3)
 }
